@@ -27,6 +27,8 @@ import PS.Proofs.Ucfg
 import PS.Proofs.UMass
 import PS.Proofs.UOps
 import PS.Proofs.FromCfg
+import PS.Proofs.C04CountT
+import PS.Proofs.C04CountU
 namespace PS.G
 open PS
 
@@ -316,6 +318,170 @@ theorem finding_C04_F1 :
     probabilityU G2 (uniformU G2) ta = 1 ∧ probU G2 (uniformU G2) ta = 1/2 ∧
     (([ta, tb, tfa].map (fun t => probabilityU G2 (uniformU G2) t)).sum = 2) ∧
     (([ta, tb, tfa].map (fun t => probU G2 (uniformU G2) t)).sum = 1) := by
+  decide +kernel
+
+end PS.U
+
+/-! ## The reported number of programs (second half of the statement), TTCFG-based and
+     unambiguous grammars, any number of start symbols -/
+namespace PS.G
+open PS
+
+/-- **`ProbDetGrammar.programs()` over a TTCFG** (`TTCFG.programs()`, memoised dictionaries of
+    counts per final state; /repo after fix 875cb5a = `PS.T.programsR`): for every table whose
+    rows are dicts and that does not use the end-marker type `UnknownType` as a key or as an
+    argument slot (three decidable hypotheses, evaluated by the driver on every case), whenever
+    it returns `n` there is a duplicate-free list of `n` programs that contains exactly the
+    programs of the grammar (`program in grammar`, equivalently the stack-free specification
+    `PS.T.inLang`), and every program outside it has probability 0. -/
+theorem C04_programs_ttcfg {S T : Type} [DecidableEq S] [DecidableEq T] (G : TT S T) (tags : Tags S T)
+    (hr : PS.T.rowsNodup G = true) (hU : PS.T.noUnknownKey G = true) (hA : PS.T.noUnknownArg G = true)
+    (fuel n : Nat) (hp : PS.T.programsR G fuel = some n) :
+    ∃ L : List Prog, L.Nodup ∧ n = L.length ∧
+      (∀ t, t ∈ L ↔ contains G t = true) ∧ (∀ t, t ∈ L ↔ PS.T.inLang G t = true) ∧
+      (∀ t, t ∉ L → probabilityDet G tags t = 0) := by
+  obtain ⟨h1, h2, h3⟩ := CntT.programsR_contains G hr hU hA fuel n hp
+  refine ⟨_, h1, h2, h3, fun t => by rw [h3 t, PS.T.contains_eq_inLang], ?_⟩
+  intro t ht
+  apply C04_outside_zero G tags t
+  cases hc : contains G t with
+  | false => rfl
+  | true => exact absurd ((h3 t).mpr hc) ht
+
+/-- … and on a table with a trivial state (a CFG handed to the TTCFG code) the number is the
+    length of the enumeration `lang` of `C04_lang`, the number `CFG.programs()` reports
+    (`C04_programs`): the two transcriptions count the same language. -/
+theorem C04_programs_ttcfg_cfg {S : Type} [DecidableEq S] (G : TT S Unit) (hr : PS.T.rowsNodup G = true)
+    (hU : PS.T.noUnknownKey G = true) (hA : PS.T.noUnknownArg G = true) (fuel n : Nat)
+    (hp : PS.T.programsR G fuel = some n) (hrn : RowsNodup G) (k : Nat)
+    (hb : bounded G k G.start = true) : n = (lang G k G.start).length :=
+  CntT.programsR_eq_lang G hr hU hA fuel n hp hrn k hb
+
+namespace Ex04T
+def int : Ty := .base "int"
+def a : Sym := Sym.prim "a" int
+def b : Sym := Sym.prim "b" int
+def f : Sym := Sym.prim "f" (.arrow int int)
+/-- a table with a non-trivial state component: `(int,(0,0)) → f (int,1) | a`, `(int,(1,0)) → a | b` -/
+def GT : TT Nat Nat := ⟨(int, (0, 0)),
+  [((int, (0, 0)), [(f, ([(int, 1)], 0)), (a, ([], 5))]), ((int, (1, 0)), [(a, ([], 7)), (b, ([], 7))])]⟩
+end Ex04T
+
+open Ex04T in
+/-- non-vacuity of `C04_programs_ttcfg`: the hypotheses hold, `programs()` returns 3, the language
+    has the three programs `a`, `(f a)`, `(f b)` -/
+example : PS.T.rowsNodup GT = true ∧ PS.T.noUnknownKey GT = true ∧ PS.T.noUnknownArg GT = true ∧
+    PS.T.programsR GT 10 = some 3 ∧ (PS.T.langOf GT 10).length = 3 ∧
+    contains GT (.node f [.node b []]) = true ∧ contains GT (.node b []) = false := by
+  decide +kernel
+
+end PS.G
+
+namespace PS.U
+open PS PS.G PS.U.Mass PS.U.Cnt
+
+variable {U : Type} [DecidableEq U]
+
+/-- **`ProbUGrammar.programs()` counts derivations**, any number of start symbols: on a finite
+    grammar (`boundedU` for every start symbol; rows are dicts) the number returned is the length
+    of the enumeration `langAll` from all start symbols, in which every program occurs as many
+    times as it has (start symbol, derivation) pairs — in particular it contains exactly the
+    programs of the grammar. No unambiguity needed. -/
+theorem C04_programs_u_derivations (G : UCFG U)
+    (hr : ∀ nt rs, AList.lookup nt G.rules = some rs → (AList.keys rs).Nodup) (fuel n k : Nat)
+    (h : programs G fuel = some n) (hb : ∀ s ∈ G.starts, boundedU G k s = true) :
+    n = (langAll G k).length ∧
+    (∀ t, (langAll G k).count t = (allDerivs G t).length) ∧
+    (∀ t, t ∈ langAll G k ↔ contains G t = true) := by
+  refine ⟨?_, count_langAll G hr k hb, fun t => by rw [mem_langAll G hr k hb t, contains_eq_genU]⟩
+  rw [Ops.programs_eq_length G fuel n k h hb]
+  unfold langAll
+  rw [List.length_flatMap]
+
+/-- **`ProbUGrammar.programs()` = the size of the language** of a finite UNAMBIGUOUS grammar, any
+    number of start symbols: `n` is the length of a duplicate-free list that contains exactly
+    the programs of the grammar. (For the grammars `UCFG.from_DFTA` builds the unambiguity
+    hypothesis is a theorem: `C06_unambiguousOn_partial`; for `from_CFG`: `C04_from_cfg`.) -/
+theorem C04_programs_ucfg (G : UCFG U)
+    (hr : ∀ nt rs, AList.lookup nt G.rules = some rs → (AList.keys rs).Nodup) (fuel n k : Nat)
+    (h : programs G fuel = some n) (hb : ∀ s ∈ G.starts, boundedU G k s = true)
+    (hu : ∀ t, unambiguousOn G t = true) :
+    ∃ L : List Prog, L.Nodup ∧ n = L.length ∧ ∀ t, t ∈ L ↔ contains G t = true :=
+  ⟨langAll G k, langAll_nodup G hr k hb hu,
+    (C04_programs_u_derivations G hr fuel n k h hb).1,
+    (C04_programs_u_derivations G hr fuel n k h hb).2.2⟩
+
+/-- **the statement's probabilities sum to 1 over the language**, several start symbols, start
+    weights included: normalised rows, start weights summing to 1, finite unambiguous grammar.
+    (The CODE omits the start factor — finding C04-F1, `finding_C04_F1` — so this is about the
+    specification `probU`; with one start symbol of weight 1 the code agrees:
+    `C04_sum_one_u_partial`.) -/
+theorem C04_sum_one_u (G : UCFG U) (tg : UTags U) (hn : NormalisedU G tg) (k : Nat)
+    (hb : ∀ s ∈ G.starts, boundedU G k s = true)
+    (hs : (G.starts.map (startWeight tg)).sum = 1) (hu : ∀ t, unambiguousOn G t = true) :
+    (langAll G k).Nodup ∧ (∀ t, t ∈ langAll G k ↔ contains G t = true) ∧
+    ((langAll G k).map (fun t => probU G tg t)).sum = 1 := by
+  have hr : ∀ nt rs, AList.lookup nt G.rules = some rs → (AList.keys rs).Nodup :=
+    fun nt rs h => (hn (nt, rs) (AList.lookup_some_mem h)).2
+  exact ⟨langAll_nodup G hr k hb hu, fun t => by rw [mem_langAll G hr k hb t, contains_eq_genU],
+    probU_sum_one_starts G tg hn k hb hs hu⟩
+
+/-- finding C04-F1 made quantitative, for every unambiguous grammar and every program with its
+    unique (start symbol, derivation) pair `(s, d)` all of whose rules carry a weight: the CODE
+    reports the product of the rule weights of `d`, the STATEMENT asks for that product times the
+    weight of the start symbol `s`. -/
+theorem C04_prob_u_code (G : UCFG U) (tg : UTags U) (t : Prog) (s : UNT U) (d : Der U)
+    (h : allDerivs G t = [(s, d)]) (hw : ∀ x ∈ d, (tagOfU tg x.1 x.2.1 x.2.2).isSome = true) :
+    probabilityU G tg t = derWeightU tg d ∧ probU G tg t = startWeight tg s * derWeightU tg d := by
+  refine ⟨?_, by rw [probU, h]⟩
+  have hred := reduceAll_derivs G t
+  rw [h] at hred
+  simp only [List.map_cons, List.map_nil] at hred
+  cases hR : reduceAll G t with
+  | nil => rw [hR] at hred; simp at hred
+  | cons p ps =>
+    rw [hR] at hred
+    simp only [List.map_cons, List.cons.injEq, List.map_eq_nil_iff] at hred
+    obtain ⟨hp, hps⟩ := hred
+    subst hps
+    unfold probabilityU
+    rw [hR]
+    obtain ⟨h1, h2⟩ := foldSteps_spec tg p 1
+    cases hf : foldSteps tg (some 1) p with
+    | some v =>
+      simp only [List.map_cons, List.map_nil, hf, List.any_cons, Option.isNone_some, List.any_nil,
+        Bool.or_self, Bool.false_eq_true, if_false]
+      rw [h1 v hf, Rat.one_mul, hp]
+    | none =>
+      exfalso
+      -- every step has a tag, so the fold cannot fail
+      have key : ∀ (q : List (Step U)) (c : Rat), (∀ e ∈ q, (tagOfU tg e.nt e.sym e.args).isSome = true) →
+          foldSteps tg (some c) q ≠ none := by
+        intro q
+        induction q with
+        | nil => intro c _ e; simp [foldSteps] at e
+        | cons e es ih =>
+          intro c hall
+          rw [foldSteps]
+          have := hall e (by simp)
+          cases ht : tagOfU tg e.nt e.sym e.args with
+          | none => rw [ht] at this; cases this
+          | some w => simp only [Option.map_some]; exact ih _ (fun x hx => hall x (by simp [hx]))
+      apply key p 1 _ hf
+      intro e he
+      have : Step.rule e ∈ d := by rw [← hp]; exact List.mem_map.mpr ⟨e, he, rfl⟩
+      exact hw _ this
+
+open Ex04 in
+/-- non-vacuity of `C04_programs_ucfg` / `C04_sum_one_u` on the grammar with TWO start symbols of
+    `finding_C04_F1`: rows are dicts, both start symbols are bounded, every program has at most
+    one derivation (checked on the language), `programs()` = 3 = |language|, the statement's
+    probabilities (uniform weights: start weights 1/2, 1/2) sum to 1 -/
+example : langAll G2 2 = [ta, tb, tfa] ∧ programs G2 5 = some 3 ∧
+    (G2.starts.all (fun s => boundedU G2 2 s)) = true ∧
+    ((langAll G2 2).all (fun t => unambiguousOn G2 t)) = true ∧
+    (G2.starts.map (startWeight (uniformU G2))).sum = 1 ∧
+    ((langAll G2 2).map (fun t => probU G2 (uniformU G2) t)).sum = 1 := by
   decide +kernel
 
 end PS.U
